@@ -36,6 +36,18 @@ func main() {
 		cmdC10Script(*seed, *n, *dir)
 	case "probe":
 		cmdProbe(*file)
+	case "c08-corr":
+		cmdC08Corr(*seed, *n, *dir)
+	case "c08-script":
+		cmdC08Script(*seed, *n, *dir)
+	case "c15":
+		cmdC15(*seed, *n, *dir)
+	case "c16-corr":
+		cmdC16Corr(*seed, *n, *dir)
+	case "c16-perm":
+		cmdC16Perm(*seed, *n, *dir)
+	case "c12-script":
+		cmdC12Script(*seed, *n, *dir)
 	case "c05":
 		cmdC05(*seed, *thorough, *dir)
 	default:
